@@ -3,12 +3,12 @@ from harness import coqio as q
 from harness.pydrv import localsearch_drv as L
 
 ID = "C04"
-COQ_REQUIRE = ["Net", "M_Mgm"]
+COQ_REQUIRE = ["Net", "M_Mgm", "M_Mgm2"]
 COQ_CASE_TYPE = "lcase"
 COQ_CHECK = "lcheck"
-COQ_PREAMBLE = ("Inductive lcase := CMgm (c : M_Mgm.case) (r : M_Mgm.rcase).\n"
+COQ_PREAMBLE = ("Inductive lcase := CMgm (c : M_Mgm.case) (r : M_Mgm.rcase) | CMgm2 (c : M_Mgm2.case2).\n"
                 "Definition lcheck (c : lcase) : bool := match c with CMgm x r => M_Mgm.check_case x && "
-                "M_Mgm.rcheck_case r end.")
+                "M_Mgm.rcheck_case r | CMgm2 x => M_Mgm2.check_case2 x end.")
 OBLIGATIONS = ['mgm_no_move_1opt_partial', 'mgm_isolated_1opt', 'mgm_improvable_moves_partial']
 N_QUICK, N_THOROUGH = 300, 4000
 PARALLEL = 8
@@ -16,7 +16,7 @@ SHARD = 40
 RULE = ""
 MODELLED = ""
 META = dict(level_text="", level_note="", technique="", design_ref="DESIGN.md §5 C04")
-ALGOS = ["mgm"]
+ALGOS = ["mgm", "mgm2"]
 
 
 def gen(rng, n, tier):
@@ -41,6 +41,8 @@ def oracle(c, o):
 def coq_case(c, o):
     if c["algo"] == "mgm":
         return "CMgm (%s) (%s)" % (L.coq_mgm_case(c, o), L.coq_mgm_rcase(c, o))
+    if c["algo"] == "mgm2":
+        return "CMgm2 (%s)" % L.coq_mgm2_case(c, o)
     return None
 
 
